@@ -132,7 +132,9 @@ def phase_select(ck):
 
 # ------------------------------------------------------------------------------------------------ MC
 MC_QUICK = ["asis_q", "fixed_q", "fixed_cap_q"]
-MC_THOROUGH = ["asis_1x2", "fixed_1x2", "asis_2x1", "fixed_2x1", "fixed_cap"]
+# the repaired protocol (= the code) with all properties; of the old protocol only the 2x1 instance (safety part) is kept in
+# the tier - mc/Pool_MC_asis_1x2.cfg (12 M states) can be run by hand
+MC_THOROUGH = ["fixed_1x2", "fixed_cap", "fixed_2x1", "asis_2x1"]
 
 
 def phase_mc(ck):
